@@ -253,6 +253,21 @@ Theorem C04_alloc_sgpd : forall hs hl body,
 Proof. exact alloc_sgpd_bounded. Qed.
 Print Assumptions C04_alloc_sgpd.
 
+(* senc second phase (ParseReadBox + parseAndFillSamples, iv given or tried as 0 / 8 / 16): under the guard that the
+   first phase establishes, at most 72 * len(rawData) + 360 bytes are requested and the loops run at most
+   3 * len(rawData) + 3 times; the first phase does establish it (header length 8 or 16) *)
+Theorem C04_alloc_senc_parse : forall fl cnt raw iv, (has fl 2 = true -> 2 * cnt <= lenN raw + 8) ->
+  exists ok a b al it, senc_parse fl cnt raw iv = Ok (ok, a, b, al, it) /\ al <= 72 * lenN raw + 360 /\ it <= 3 * lenN raw + 3.
+Proof. exact senc_parse_bounded. Qed.
+Print Assumptions C04_alloc_senc_parse.
+
+Theorem C04_alloc_senc_guard : forall p hs hl body o, hl <= 16 -> (p = false -> lenN body = hs - hl) ->
+  alloc_senc p hs hl body = Ok o -> o_ok o = true ->
+  has (flags_of (fst (rd_n body 4 rd0))) 2 = true ->
+  2 * o_count o <= lenN (firstn (Z.to_nat (apayload_len hs hl - 8)) (skipn 8 body)) + 8.
+Proof. exact senc_guard_established. Qed.
+Print Assumptions C04_alloc_senc_guard.
+
 (* box level, both decode paths, EVERY byte string shorter than 32 GiB whose box type is one of the 21 modelled
    ones: header, size guard, prologue: at most 8 * len + 1048560 bytes requested, at most 2 * len + 65535 iterations *)
 Theorem C04_alloc_box_sr : forall bs, lenN bs < 34359738376 ->
@@ -327,3 +342,11 @@ Proof. vm_compute. reflexivity. Qed.
 Example ex_sgpd_alst_rejected :
   match alloc_box_sr ([0;0;0;28;115;103;112;100] ++ alst_witness) with Some (Ok o) => o_ok o = false /\ o_alloc o = 56 | _ => False end.
 Proof. vm_compute. split; reflexivity. Qed.
+
+(* a senc with the subsample flag, two samples (8-byte IV, one subsample each): both phases succeed with
+   perSampleIVSize unknown (0 fails, 8 fits): 2 IVs, 2 subsample lists; the guard hypothesis holds for it *)
+Example ex_senc_two_phase :
+  senc_box true [0;0;0;48;115;101;110;99; 0;0;0;2; 0;0;0;2;
+                 1;2;3;4;5;6;7;8; 0;1; 0;1; 0;0;0;2;  1;2;3;4;5;6;7;8; 0;1; 0;1; 0;0;0;2] 0
+  = Some (Ok (true, true, 2, 2, 160, 5)).
+Proof. vm_compute. reflexivity. Qed.
